@@ -1,4 +1,4 @@
-From C01 Require Import Order WipO.
+From C01 Require Import Order ProofsOrdA.
 Local Open Scope Z_scope.
 
 (* ---------- list plumbing ---------- *)
@@ -90,6 +90,15 @@ Section CSide.
   Lemma value_at_cons_ne pos pos' v acc : pos <> pos' -> value_at ((pos', v) :: acc) pos = value_at acc pos.
   Proof. intros H. unfold value_at. cbn [find fst]. destruct (Nat.eqb_spec pos' pos); [congruence|reflexivity]. Qed.
 
+  Lemma run_unseq_unfold n p0 ps0 (st : state) o acc :
+    run_unseq (S n) (p0 :: ps0) st o acc =
+    let '(c, o1) := pick o in
+    let i := (c mod length (p0 :: ps0))%nat in
+    let '(pos, th) := nth i (p0 :: ps0) p0 in
+    let '(s1, v, o2) := th st o1 in
+    run_unseq n (firstn i (p0 :: ps0) ++ skipn (S i) (p0 :: ps0)) s1 o2 ((pos, v) :: acc).
+  Proof. reflexivity. Qed.
+
   Lemma run_unseq_spec : forall n ps qs, pend_ok ps qs -> n = length ps ->
     amo (map s_tr qs) -> NoDup (map s_pos qs) ->
     forall t o acc, exists o' acc',
@@ -98,10 +107,10 @@ Section CSide.
     induction n as [|n IH]; intros ps qs Hok Hn Hamo Hnd t o acc.
     - destruct ps; [|discriminate]. inversion Hok; subst. exists o, acc. split; [reflexivity|].
       split; [intros q []|intros; reflexivity].
-    - destruct ps as [|p0 ps0] eqn:Eps; [discriminate|]. rewrite <- Eps in *.
-      assert (Hlen : (0 < length ps)%nat) by (rewrite Eps; cbn; lia).
-      cbn [run_unseq]. rewrite Eps at 1. rewrite <- Eps.
-      destruct (pick o) as [c o1].
+    - destruct ps as [|p0 ps0]; [discriminate|].
+      rewrite run_unseq_unfold. set (ps := p0 :: ps0) in *.
+      assert (Hlen : (0 < length ps)%nat) by (unfold ps; cbn; lia).
+      destruct (pick o) as [c o1]. cbv zeta.
       set (i := (c mod length ps)%nat).
       assert (Hi : (i < length ps)%nat) by (apply Nat.mod_upper_bound; lia).
       destruct (split_at p0 ps i Hi) as (A & B & Esplit & LA).
@@ -120,7 +129,9 @@ Section CSide.
       destruct (IH (A ++ B) (QA ++ QB) (pend_ok_app _ _ _ _ OA OB) Hn' Hamo' Hnd' (rev (s_tr q) ++ t) o2 ((pos, s_val q) :: acc))
         as (o3 & acc' & E3 & (V1 & V2)).
       exists o3, acc'. split.
-      + etransitivity; [exact E3|]. rewrite map_app. cbn [map]. rewrite Hcat, <- map_app. rewrite rev_app_distr, <- app_assoc. reflexivity.
+      + assert (Etr : rev (concat (map s_tr (QA ++ q :: QB))) = rev (concat (map s_tr (QA ++ QB))) ++ rev (s_tr q)).
+        { rewrite (map_app s_tr QA (q :: QB)). cbn [map]. rewrite Hcat, rev_app_distr, map_app. reflexivity. }
+        rewrite Etr, <- app_assoc. exact E3.
       + split.
         * intros q' Hq'. apply in_app_or in Hq'. destruct Hq' as [Hq'|[<-|Hq']].
           -- apply V1. apply in_or_app. left. exact Hq'.
